@@ -1061,3 +1061,71 @@ package http2
 //@ ensures fresh: r0 != nil && fresh(r0) && r0.id == id && r0.window == win && r0.state == 0 && !r0.headersFinished && r0.ctx == nil &&
 //@ |   !r0.responded && !r0.handlerRunning && !r0.abandoned && r0.recvBody == 0 && r0.headerListSize == 0 && !r0.hasContentLength &&
 //@ |   len(r0.previousHeaderBytes) == 0 && len(r0.pendingData) == 0 && r0.bodyStream == nil && !r0.regularSeen
+
+// ---------------------------------------------------------------------------
+// Client (conn.go): send windows, DATA framing, receive credit, response fields
+// ---------------------------------------------------------------------------
+
+//@ guarded Conn.sendLck: Conn.connWindow, Conn.streamWindow, pendingBody.window
+
+//@ func (*pendingBody).hasMore
+//@ props C07
+//@ requires recv: pb != nil
+//@ pure
+//@ ensures def: r0 <==> (len(pb.body) > 0 || (pb.stream != nil && !pb.drained))
+
+//@ func (*Conn).writeOut
+//@ props C14 C18
+//@ requires args: c != nil && fr != nil && fr.fr != nil
+//@ opt noframe=true
+//@ opt body=skip
+
+//@ func (*Conn).updateWindow
+//@ props C14
+//@ requires recv: c != nil
+//@ # RFC 7540 6.9: an increment of 0 is a protocol error, above 2^31-1 is impossible
+//@ requires inc: 1 <= size && size <= 2147483647
+//@ opt noframe=true
+
+//@ func (*Conn).readStream
+//@ props C14 C02 C16
+//@ requires args: c != nil && fr != nil && res != nil
+//@ requires typed: 0 <= fr.kind && fr.kind <= 9 && frameTypeOK(fr.fr, fr.kind) && fr.length >= 0 && fr.length <= 16777215
+//@ requires win: c.maxWindow >= 0 && c.currentWindow >= c.maxWindow / 2 && c.currentWindow <= c.maxWindow
+//@ requires dec: c.dec != nil && hpackOK(c.dec)
+//@ opt noframe=true
+//@ modifies c.currentWindow, c.dec.maxTableSize, c.dec.dynamic, capacity(c.dec.dynamic), family(HeaderField), anybytes()
+//@ let w0 = old(c.currentWindow)
+//@ # connection credit: the advertised window never stays below half
+//@ ensures refill: fr.kind == 0 ==> c.currentWindow == ite(w0 - fr.length < c.maxWindow / 2, c.maxWindow, w0 - fr.length)
+//@ ensures inv: c.currentWindow >= c.maxWindow / 2 && c.currentWindow <= c.maxWindow
+//@ # stream credit: every octet of a DATA frame, padding included, is handed back
+//@ ensures strmcredit: fr.kind == 0 && fr.length > 0 ==> called((*Conn).updateWindow) >= 1
+//@ ensures rst: fr.kind == 3 ==> err != nil
+
+//@ func (*HPACK).Next
+//@ props C03 C16
+//@ requires tbl: hpackOK(hp) && hf != nil
+//@ modifies hf.key, capacity(hf.key), hf.value, capacity(hf.value), hf.sensible, hp.maxTableSize, hp.dynamic, capacity(hp.dynamic), family(HeaderField), anybytes()
+//@ opt noframe=true
+//@ ensures tblok: hpackOK(hp)
+//@ ensures empty: len(b) == 0 ==> r1 == nil && len(r0) == 0
+//@ ensures progress: r1 == nil && len(b) > 0 ==> len(r0) < len(b)
+
+//@ func (*Conn).readHeader
+//@ props C20 C02 C16
+//@ requires args: c != nil && res != nil && c.dec != nil && hpackOK(c.dec)
+//@ opt noframe=true
+//@ modifies c.dec.maxTableSize, c.dec.dynamic, capacity(c.dec.dynamic), family(HeaderField), anybytes()
+//@ loop 0: invariant inv: c != nil && res != nil && dec != nil && dec == c.dec && hpackOK(dec) && hf != nil
+//@ # ---- a response field is only handed to fasthttp when it is well-formed (RFC 7540 8.1.2) ----
+//@ # :status is a three-digit number and comes before any regular field
+//@ # (a repeated :status in the same block is rejected: statusSeen is set on the way to the first one only)
+//@ ghost nstatus = 0
+//@ assert@call:(*Response).SetStatusCode#1 status: !regularSeen && n >= 100 && n <= 999 && nstatus == 0
+//@ ghost@call:(*Response).SetStatusCode#1 nstatus = nstatus + 1
+//@ loop 0: invariant once: nstatus >= 0 && nstatus <= 1 && (statusSeen <==> nstatus == 1)
+//@ # regular fields: lower-case names, nothing connection-specific, numeric content-length
+//@ assert@call:(*ResponseHeader).SetContentLength#1 cl: lower(hf.key) && !connspecific(hf.key) && n >= 0
+//@ assert@call:(*ResponseHeader).AddBytesKV#1 regular: lower(hf.key) && !connspecific(hf.key) && (len(hf.key) == 0 || hf.key[0] != ':')
+//@ ensures decok: hpackOK(c.dec)
